@@ -156,7 +156,8 @@ mod vharness {
     #[kani::unwind(8)]
     fn lex_operator_commits_a_nonempty_token_within_the_input() {
         let env = any_env();
-        kani::assume(env.e == env.s + 1);         // next_token consumed the first operator byte
+        kani::assume(env.e == env.s + 1);         // next_token consumed the first operator byte ...
+        kani::assume(matches!(env.input[env.s], b'!' | b'$' | b':' | b'~' | b'+' | b'-' | b'&' | b'^' | b'=' | b'<' | b'>' | b'*' | b'%' | b'/' | b'|'));   // ... which is one of these (the arms of next_token that call lex_operator)
         with_lexer!(env, lx, {
             let tok = lx.lex_operator();
             let SpanId(a, b) = tok.span;
